@@ -109,6 +109,10 @@ def murmur (op : String) (args : List String) : String :=
     match seed.toNat?, unhex h with
     | some sd, some bs => s!"ok {(PV.Murmur.hash64A bs (UInt64.ofNat sd)).toNat}"
     | _, _ => "bad-op"
+  | "casekey", [a, b] =>
+    match unhex a, unhex b with
+    | some src, some low => s!"ok {(PV.Murmur.caseKey src low).toNat}"
+    | _, _ => "bad-op"
   | "spec.hash", [seed, h, _align] =>
     match seed.toNat?, unhex h with
     | some sd, some bs => s!"ok {(PV.Spec.Murmur.murmurRef bs (UInt64.ofNat sd)).toNat}"
